@@ -136,8 +136,13 @@ class Redis:
         return 0
 
     def scan(self, cursor=0, match=None, count=None):
-        keys = [k for k in SERVER.data if match is None or fnmatch.fnmatchcase(k, match)]
-        return 0, [k.encode("utf8") for k in keys]
+        # like the real server: a page is cut from the whole keyspace and MATCH is applied to that page afterwards, so a page can
+        # come back empty although later pages still hold matching keys; the returned cursor is 0 when the scan is complete
+        keys = sorted(SERVER.data)
+        start = int(cursor)
+        page = [k for k in keys[start:start + 3] if match is None or fnmatch.fnmatchcase(k, match)]
+        nxt = start + 3
+        return (0 if nxt >= len(keys) else nxt), [k.encode("utf8") for k in page]
 
     # ---- hashes (used by the pottery stand-in)
     def _hash(self, key, create=False):
